@@ -125,7 +125,14 @@ impl<T, S: NodeState> Node<T, S> {
                 continue;
             }
 
-            parameters.push((&child.state.name, std::str::from_utf8(segment).ok()?));
+            let value = match std::str::from_utf8(segment) {
+                Ok(value) => value,
+                _ => {
+                    continue;
+                }
+            };
+
+            parameters.push((&child.state.name, value));
 
             if let Some(result) = child.search(&path[segment_end..], parameters, constraints) {
                 return Some(result);
@@ -162,8 +169,15 @@ impl<T, S: NodeState> Node<T, S> {
                     continue;
                 }
 
+                let value = match std::str::from_utf8(segment) {
+                    Ok(value) => value,
+                    _ => {
+                        continue;
+                    }
+                };
+
                 let mut current_parameters = parameters.clone();
-                current_parameters.push((&child.state.name, std::str::from_utf8(segment).ok()?));
+                current_parameters.push((&child.state.name, value));
 
                 let data =
                     match child.search(&path[consumed..], &mut current_parameters, constraints) {
@@ -207,7 +221,14 @@ impl<T, S: NodeState> Node<T, S> {
                 continue;
             }
 
-            parameters.push((&child.state.name, std::str::from_utf8(segment).ok()?));
+            let value = match std::str::from_utf8(segment) {
+                Ok(value) => value,
+                _ => {
+                    continue;
+                }
+            };
+
+            parameters.push((&child.state.name, value));
 
             if let Some(result) = child.search(&path[segment_end..], parameters, constraints) {
                 return Some(result);
@@ -241,8 +262,15 @@ impl<T, S: NodeState> Node<T, S> {
 
                 let segment = &path[..consumed];
 
+                let value = match std::str::from_utf8(segment) {
+                    Ok(value) => value,
+                    _ => {
+                        continue;
+                    }
+                };
+
                 let mut current_parameters = parameters.clone();
-                current_parameters.push((&child.state.name, std::str::from_utf8(segment).ok()?));
+                current_parameters.push((&child.state.name, value));
 
                 let data =
                     match child.search(&path[consumed..], &mut current_parameters, constraints) {
@@ -355,8 +383,15 @@ impl<T, S: NodeState> Node<T, S> {
                     continue;
                 }
 
+                let value = match std::str::from_utf8(segment) {
+                    Ok(value) => value,
+                    _ => {
+                        continue;
+                    }
+                };
+
                 let mut current_parameters = parameters.clone();
-                current_parameters.push((&child.state.name, std::str::from_utf8(segment).ok()?));
+                current_parameters.push((&child.state.name, value));
 
                 let data =
                     match child.search(&path[consumed..], &mut current_parameters, constraints) {
@@ -462,8 +497,15 @@ impl<T, S: NodeState> Node<T, S> {
 
                 let segment = &path[..consumed];
 
+                let value = match std::str::from_utf8(segment) {
+                    Ok(value) => value,
+                    _ => {
+                        continue;
+                    }
+                };
+
                 let mut current_parameters = parameters.clone();
-                current_parameters.push((&child.state.name, std::str::from_utf8(segment).ok()?));
+                current_parameters.push((&child.state.name, value));
 
                 let data =
                     match child.search(&path[consumed..], &mut current_parameters, constraints) {
